@@ -191,9 +191,12 @@ func MapOrder(fork bool)  {}
 // Symbolic reports whether the harness runs under the symbolic engine.
 func Symbolic() bool { return false }
 
-// Thorough reports the tier under the engine; natively the bounds it selects
-// only matter through the replayed Choice values.
-func Thorough() bool { return false }
+// Thorough reports whether the harness runs at the thorough bounds. Natively
+// the replay job says which bounds the replayed path was explored with.
+func Thorough() bool { return NativeThorough }
+
+// NativeThorough is set by the replay runner from the job.
+var NativeThorough bool
 
 // BytesTail returns n arbitrary bytes in a buffer with `tail` bytes of spare
 // capacity. Under the engine the spare bytes are poisoned (any read of them is
